@@ -234,10 +234,13 @@ theorem persist_restores (y : Sys) (hp : y.persist = true) (hl : y.s.loaded = tr
   refine ⟨by simp [xstep, stopMode, hl, hp, lookupSnap], fun y2 h2 hl2 hs => ?_⟩
   simp [xstep, startMode, hl2, h2, hs, snapOf]
 
-/-- **Players are isolated**: no op changes the stored state of a player who is not up. -/
-theorem other_players_untouched (y : Sys) (x : XOp) (q : Nat) (hq : q ≠ y.cur) :
+/-- **Players are isolated**: within a game (every op except the end of the game, which removes the players
+themselves - `new_game_starts_fresh`) no op changes the stored state of a player who is not up. -/
+theorem other_players_untouched (y : Sys) (x : XOp) (q : Nat) (hq : q ≠ y.cur) (hg : x ≠ .newGame) :
     lookupSnap q (xstep y x).1.saved = lookupSnap q y.saved := by
   cases x with
+  | newGame => exact absurd rfl hg
+  | ctlNone => rfl
   | core o =>
     by_cases hc : o = .clock
     · subst hc; simp only [xstep]; split <;> rfl
@@ -259,6 +262,31 @@ theorem other_players_untouched (y : Sys) (x : XOp) (q : Nat) (hq : q ≠ y.cur)
     · simp [lookupSnap, Ne.symm hq]
     · rfl
   | startMode p => simp only [xstep]; rw [(startMode_frame y p).2.2]
+
+/-- **Game end, second game**: after the game ended (block's mode stopped) nobody has a stored state any more, so in
+the next game every player - whatever the previous game left - gets a fresh block: start value as the template
+evaluates then, not completed, enabled iff `start_enabled`, timeout armed iff enabled; while a mode that merely
+stops and starts again within the game (next ball, extra ball: `startMode` for the same player) restores
+(`persist_restores`) and does NOT arm the timeout of a restored enabled block (the model follows the code). -/
+theorem new_game_starts_fresh (y : Sys) (p : Nat) (hl : y.s.loaded = false) :
+    let y1 := (xstep y .newGame).1
+    (∀ q, lookupSnap q y1.saved = none) ∧ y1.cur = 0 ∧ y1.s = y.s ∧ y1.pending = y.pending ∧
+    (xstep y1 (.startMode p)).1.s = (load y.c y.s).1 ∧ (xstep y1 (.startMode p)).2 = (load y.c y.s).2 ∧
+    (load y.c y.s).1.completed = false ∧ (load y.c y.s).1.enabled = y.c.startEnabled ∧
+    (load y.c y.s).1.timeoutDue = (if y.c.startEnabled && decide (y.c.timeout ≠ 0) then some (y.s.now + y.c.timeout) else none) := by
+  refine ⟨fun q => by simp [xstep, hl, lookupSnap], by simp [xstep, hl], by simp [xstep, hl], by simp [xstep, hl],
+    by simp [xstep, startMode, hl, lookupSnap], by simp [xstep, startMode, hl, lookupSnap], ?_, ?_, ?_⟩
+  · cases h : y.c.startEnabled <;> simp [load, enable, timerStart, h] <;> split <;> rfl
+  · cases h : y.c.startEnabled <;> simp [load, enable, timerStart, h] <;> split <;> rfl
+  · cases h : y.c.startEnabled <;> simp [load, enable, timerStart, h]
+    split <;> simp_all
+
+/-- a restored enabled block has no timeout pending although `logic_block_timeout` is configured (kernel-evaluated
+witness of the behaviour described in `persist_restores`; observed on the real device, reported, not a clause of C18) -/
+theorem restored_block_timeout_not_rearmed_witness :
+    let c : Cfg := { kind := .counter, start := 0, goal := some 9, timeout := 4, startEnabled := true }
+    let y := (xrun (xinit c true false) [.startMode 0, .core .count, .stopMode, .startMode 0]).1
+    y.s.enabled = true ∧ y.s.value = 1 ∧ y.s.timeoutDue = none := by decide
 
 /-- **advance_random is a hit on an open step**: whatever open step the random choice names, the effect is that of
 a hit on that step (so `accrual_any_order` and the completion theorems cover it); a step that is already set is never
